@@ -29,7 +29,7 @@ def run(tier):
     res = vlib.Result("C13", tier, "other")
     b = vlib.build_property("C13")
     n = 32 if tier == "quick" else 1500
-    jobs = compiles.plan(FAMS, n, vlib.seed(), tag="c13", capture=False)
+    jobs = compiles.corpus_jobs(capture=False) + compiles.plan(FAMS, n, vlib.seed(), tag="c13", capture=False)
     # every single-operator kind and every unsupported-corner kind at least once (twice in thorough)
     import netgen
     import random as _r
